@@ -47,6 +47,8 @@ type deferRec struct {
 
 type loopCtx struct {
 	measure *Term
+	unroll  bool // loop without a specification: unrolled up to unrollBound iterations (bounded, not a proof)
+	iter    int
 	start   *State // state at the start of the iteration (after the invariants were assumed)
 }
 
@@ -63,6 +65,7 @@ type Frame struct {
 	ghostPar map[string]Value
 	callStack []string
 	lastRet  ssa.Instruction
+	outerN   *Value // $n of the loop around the call site this frame was inlined at
 }
 
 func (f *Frame) clone() *Frame {
@@ -118,6 +121,8 @@ type Exec struct {
 	clauseHit   map[string]bool
 	aliasCache  map[*ssa.Function]map[string][]string
 	topFr       *Frame
+	pendingN    *Value
+	bounded     map[string]int // loops verified by bounded unrolling: "fn loop N" -> bound
 	rebound     map[string]map[string][]string
 }
 
@@ -353,6 +358,13 @@ func (ex *Exec) load(st *State, loc *Loc) Value {
 		return st.loadObj(loc.Obj, loc.Struct, loc.Path, loc.T)
 	case "elem":
 		return st.loadElem(loc.Obj, loc.Idx, loc.T)
+	case "elemfield":
+		ls := leavesOf(loc.T)
+		v := Value{T: loc.T, L: make([]*Term, len(ls))}
+		for i, l := range ls {
+			v.L[i] = st.mem(memName(loc.Struct, loc.Path+l.Path), l.Sort).read(loc.Obj, loc.Idx)
+		}
+		return v
 	case "cell":
 		if name, shared := st.Shared[loc.Cell]; shared {
 			ex.oblige(st, "safety", "shared-after-go:"+name, []string{"C04", "C15"}, tFalse, token.NoPos, ex.fnKey)
@@ -365,6 +377,9 @@ func (ex *Exec) load(st *State, loc *Loc) Value {
 	case "global":
 		return ex.loadGlobal(st, loc.Glob, loc.T)
 	case "strview":
+		inner := ex.load(st, &Loc{Kind: "cell", Cell: loc.Cell, T: types.NewSlice(tByte)})
+		return ex.stringView(st, inner.Arr(), inner.Off(), inner.Len(), loc.T)
+	case "strview-never":
 		inner := ex.load(st, &Loc{Kind: "cell", Cell: loc.Cell, T: types.NewSlice(tByte)})
 		id := UF("sview", SInt, inner.Arr(), inner.Off(), inner.Len())
 		st.assume(Eq(UF("slen", SInt, id), inner.Len()))
@@ -387,6 +402,20 @@ func (ex *Exec) loadStruct(st *State, obj *Term, t types.Type) Value {
 	return st.loadObj(obj, t, "", t)
 }
 
+// stringView: the string that aliases n bytes of a byte array at (arr, off) without copying
+// (the *(*string)(unsafe.Pointer(&b)) idiom and unsafe.String(unsafe.SliceData(b), len(b))).
+func (ex *Exec) stringView(st *State, arr, off, n *Term, t types.Type) Value {
+	id := UF("sview", SInt, arr, off, n)
+	st.assume(Eq(UF("slen", SInt, id), n))
+	st.assume(Eq(UF("nulfree", SBool, id), UF("nulfree_region", SBool, arr, off, n)))
+	st.assume(Eq(UF("sview.arr", SInt, id), arr))
+	st.assume(Eq(UF("sview.off", SInt, id), off))
+	// the C string starting at (arr, off): defined when the view is NUL-free and followed by a NUL
+	term := st.mem(memName(tByte, ""), SInt).read(arr, Add(off, n))
+	st.assume(Implies(And(Eq(term, Int(0)), UF("nulfree_region", SBool, arr, off, n)), Eq(UF("cstr", SInt, arr, off), id)))
+	return Value{T: t, L: []*Term{id}}
+}
+
 func (ex *Exec) store(st *State, loc *Loc, v Value) {
 	v.T = loc.T
 	switch loc.Kind {
@@ -397,6 +426,13 @@ func (ex *Exec) store(st *State, loc *Loc, v Value) {
 		st.storeObj(loc.Obj, loc.Struct, loc.Path, v)
 	case "elem":
 		st.storeElem(loc.Obj, loc.Idx, v)
+	case "elemfield":
+		st.dropEach(loc.Struct)
+		for i, l := range leavesOf(loc.T) {
+			n := memName(loc.Struct, loc.Path+l.Path)
+			st.Mem[n] = st.mem(n, l.Sort).with(MemWrite{Arr: loc.Obj, Lo: loc.Idx, Val: v.L[i]})
+			st.Dirty["M:"+n] = true
+		}
 	case "cell":
 		if name, shared := st.Shared[loc.Cell]; shared {
 			ex.oblige(st, "safety", "shared-after-go:"+name, []string{"C04", "C15"}, tFalse, token.NoPos, ex.fnKey)
